@@ -4,6 +4,8 @@ import Pandora.Model.C06CliShutdown
 import Pandora.Model.C06SinkFail
 import Pandora.Model.C06Engine
 import Pandora.Model.C06ErrJoin
+import Pandora.Model.C06PoolRun
+import Pandora.Model.C06Start
 
 /-!
 Line-protocol driver of C06. Input kinds (see harness/cmd/c06):
@@ -176,6 +178,29 @@ def modelEngineNatural (kind : Kind) (n q pools : Nat) : String :=
   let e := modelEngineRet pools
   s!"run={if e.1 then "nil" else "running"} reports={st.log.length} pre={st.log.length} lines={st.out.length} dropped={st.droppedCount} err={err} order=1 dup=0 bad=0 closed={if st.closed && ret && st.buf.isEmpty then 1 else 0} miss=0 aggret={if ret && e.2 then 1 else 0}"
 
+/-- (round 4) ONE pool that fails before / while its tasks are started — fully determined. `warm`/`warmup`: the
+warm-up fails; `sched`: `runAsync` fails (both: `Model.C06PoolRun`, nothing is started, one `Done`). `inst`/`bind`:
+the first instance cannot be built — `Model.C06Start` on "the first wait succeeds, `newInstance` fails" gives what
+the pool's tasks see (no `.launch`, `.startDone`); the await loop takes the start result (0 started: the check
+cancels the aggregator), the aggregator's and the provider's results, then the deferred `onWaitDone`.
+(can `Engine.Wait` return, has the aggregator that was started returned, pools whose aggregator never ran) -/
+def modelEngineEarly (what : String) : Option (Bool × Bool × Nat) :=
+  let fin := fun (evs : List Pandora.Model.C06PoolRun.Ev) =>
+    let st := Pandora.Model.C06PoolRun.run .code (Pandora.Model.C06PoolRun.init 4) evs
+    let notrun := if (st.pools 0).path == .failedEarly then 1 else 0
+    some (decide (Pandora.Model.C06PoolRun.waitReturns st 1) && !decide (Pandora.Model.C06PoolRun.negativeCounter st 1),
+          notrun == 1 || (st.pools 0).p.aggDone, notrun)
+  match what with
+  | "warm" | "warmup" => fin [.warmFail 0]
+  | "sched" => fin [.asyncFail 0]
+  | "inst" | "bind" =>
+    let startTrace : List Pandora.Model.C06Pool.PEv :=
+      Pandora.Model.C06Start.poolTrace {} {} [.wait true, .newInstance false]
+    let rest : List Pandora.Model.C06Pool.PEv := [.awaitStart, .aggReturn, .awaitAgg, .provReturn, .awaitProv, .waitDone]
+    fin ([.asyncOk 0] ++ (startTrace ++ rest).map (.pool 0) ++
+      [.ctxReturn 0])
+  | _ => none
+
 def handleEngine (kv : List (String × String)) (impl : String) : String × String :=
   let ikv := parseKV impl
   let kind? : Option Pandora.Model.AggQueue.Kind := match getS kv "agg" with
@@ -187,7 +212,8 @@ def handleEngine (kv : List (String × String)) (impl : String) : String × Stri
     match getN? ikv "reports", getN? ikv "lines", getN? ikv "dropped" with
     | some reports, some lines, some dropped =>
       -- a pool that fails by itself (round 3) is judged like a cancel: after Wait, for the reports made before the failure
-      let cancelled := getS kv "cancel" != "-1" || (lookup kv "fail").isSome
+      -- (round 4) so is a pool that fails before / while its tasks are started (`early=`)
+      let cancelled := getS kv "cancel" != "-1" || (lookup kv "fail").isSome || (lookup kv "early").isSome
       let o := lateObs ikv reports lines dropped
       -- a run that ends by itself without drops is fully determined: all pools × ammo × per reports, each one line
       -- (a pool that never starts an instance — `inst=0`, round 3 — shoots nothing)
@@ -196,7 +222,16 @@ def handleEngine (kv : List (String × String)) (impl : String) : String × Stri
       -- "discarded" samples (one per ammo that was not shot) must all be in the output, next to the guns' reports
       let discTok := lookup ikv "disc"
       let overdue := (lookup kv "disc").isSome
-      let m := if !cancelled && dropped == 0 && !overdue then modelEngineNatural kind n (max q n) pools else "-"
+      -- (round 4) a shared rps schedule: how many ammo are shot depends on its tokens — judged, not predicted
+      let sharedSched := (lookup kv "shared").isSome
+      let m := if !cancelled && dropped == 0 && !overdue && !sharedSched then modelEngineNatural kind n (max q n) pools else "-"
+      -- (round 4) one pool that fails early: nothing is ever reported, everything else is what the models say
+      let m := match pools == 1, (lookup kv "early").bind (fun e => modelEngineEarly ((e.splitOn ":").headD "")) with
+        | true, some (waitRet, aggret, notrun) =>
+          if waitRet then
+            s!"run=failed reports=0 pre=0 lines=0 dropped=0 err=nil order=1 dup=0 bad=0 closed=1 miss=0 aggret={if aggret then 1 else 0} notrun={notrun}"
+          else "HANG-wait run=failed"
+        | _, _ => m
       let v := judgeEngine kind (getS ikv "run") (getS ikv "aggret" == "1") cancelled pools o
       let v := if v == "ok" && discTok.isSome && !cancelled && getS ikv "run" == "nil" &&
                   getN? ikv "disc" != getN? ikv "wantdisc" then
@@ -311,7 +346,7 @@ def handleProc (kv : List (String × String)) (impl : String) : String × String
 def handle : Handler := fun input impl =>
   let kv := parseKV input
   if impl.startsWith "PANIC" then ("-", s!"fail:panic:{(impl.take 160).toString}")
-  else if impl == "HANG" then ("-", "fail:hang:case did not finish")
+  else if impl.startsWith "HANG" then ("-", s!"fail:hang:case did not finish ({(impl.take 60).toString})")
   else match getS kv "kind" with
   | "line" => handleLine kv impl false
   | "str" => handleLine kv impl true
